@@ -241,3 +241,60 @@ def inplace_rule(rep, u):
                                                  "memcpy(%s, %s, ..): with %s == %s (the in-place conversion the source describes) the ranges overlap by all but one byte" % (
                                                      key(call["args"][0])[:30], key(call["args"][1])[:30], src, dst), call.get("ln"))
     return n
+
+
+# ------------------------------------------------------------------ third pass (replays/C15-hunt3)
+
+REPLY_CODES = ("ACCESS_ACCEPT", "ACCESS_REJECT", "ACCOUNTING_RESPONSE", "ACCESS_CHALLENGE", "DISCONNECT_ACK", "DISCONNECT_NAK", "COA_ACK", "COA_NAK")
+RANDOM_AUTH_CODES = ("ACCESS_REQUEST", "STATUS_SERVER", "STATUS_CLIENT")        # the caller supplies the random authenticator: NULL refused too
+REQUEST_CODES = ("ACCOUNTING_REQUEST", "DISCONNECT_REQUEST", "COA_REQUEST")     # authenticator starts as zeros: NULL is the normal call
+
+
+def reply_authenticated_rule(rep, u, fname="radius_pkt_authenticator_chk"):
+    """a packet checked as the reply to a request (pkt_req given) is accepted only after its authenticator was compared: no
+    success return is reachable with pkt_req != NULL that does not pass the comparison (a reply whose code byte says
+    Access-Request / Status-Server / Status-Client was waved through, forged or not)"""
+    from props.c16_audit import _follow
+    fn = _need(u, fname)
+    rep.functions.add(fname)
+    preq = [p for p in fn.params if p["n"] == "pkt_req"]
+    cmps = {pos[0] for pos, root, c, ps in fn.calls({"timingsafe_bcmp", "timingsafe_memcmp", "memcmp", "mem_cmp"})}
+    if not preq or not cmps:
+        raise driver.AnalysisBroken("%s: pkt_req parameter or the comparison not found" % fname)
+    reach = _follow(fn, fn.entry, preq[0]["id"], 0x5000, stop=cmps)
+    bad = [(pos, e) for pos, e in fn.returns() if pos[0] in reach and pos[0] not in cmps and const_val(e.get("e") or {}) == 0]
+    desc = "%s: with a request given, success is returned only behind the authenticator comparison" % fname
+    (rep.violated if bad else rep.proved)("R-VERIFY", fn, "reply-success-behind-compare", desc,
+                                          "return 0 at line %s is reached with pkt_req != NULL without a comparison: a reply with code 1 / 12 / 13 verifies with any secret, the "
+                                          "client completes its pending query on a forged datagram" % bad[0][1].get("ln") if bad else "")
+    return 1
+
+
+def reply_needs_request_authenticator_rule(rep, u, consts, fname="radius_pkt_init"):
+    """every reply code needs the request's authenticator (its own is computed over it): NULL is refused for all of them, and
+    accepted for the request codes"""
+    from rules import r_stride
+    fn = _need(u, fname)
+    rep.functions.add(fname)
+    pn = [p["n"] for p in fn.params]
+    n = 0
+    for names, want_ok in ((REPLY_CODES, False), (RANDOM_AUTH_CODES, False), (REQUEST_CODES, True)):
+        for nm in names:
+            code = consts.get("RADIUS_PKT_TYPE_" + nm)
+            if code is None:
+                raise driver.AnalysisBroken("RADIUS_PKT_TYPE_%s not evaluated" % nm)
+            pe = r_stride.PE(u)
+            ev, ret = pe.trace(fn, {pn[0]: 0x40000, pn[1]: 4096, pn[2]: 0x7000, pn[3]: code, pn[4]: 7, pn[5]: 0})
+            n += 1
+            inst = "null-authenticator[%s]" % nm
+            desc = "%s(%s, authenticator NULL) is %s" % (fname, nm, "accepted" if want_ok else "refused")
+            if isinstance(ret, str):
+                rep.undecided("R-VERIFY", fn, inst, desc, ret)
+            elif (ret == 0) == want_ok:
+                rep.proved("R-VERIFY", fn, inst, desc, "status %s" % ret)
+            elif want_ok:
+                rep.violated("R-VERIFY", fn, inst, desc, "status %s" % ret)
+            else:
+                rep.violated("R-VERIFY", fn, inst, desc, "status 0 with a zero authenticator: the Response Authenticator is then MD5 over 16 zero bytes instead of the Request "
+                             "Authenticator and no verifier accepts the reply")
+    return n
